@@ -8,27 +8,40 @@ from checks.C07 import I, S, B, T, R, NONE, TRUE, FALSE, Render, parse_dump, go_
 META = {
     "property_id": "C15",
     "technique": "Coq proof over the Gallina model of pickle/decode.go (same model as C07) and of function.go's envUnpickler / "
-                 "diffEnv reason construction + correspondence on valid, mutated and random byte strings + record-file "
-                 "corruption runs in subprocesses",
+                 "diffEnv reason construction + correspondence on valid, mutated and random byte strings, read from memory and "
+                 "from sources that fail (non-EOF read errors, damaged base64) + record-file corruption runs in subprocesses",
     "level_text": "Theorems (Coq, unbounded): for every unpickler that returns a value or an error and every byte string, "
                   "decode terminates within length+1 steps with Ok(value) or Err, never OutOfFuel/NilNil, and never Crash "
                   "when declared lengths are bounded by the input size (decode_total); envUnpickler as transcribed returns a "
                   "value, an error or a Go runtime error (converted to an error by Decode's recover), never nil "
-                  "(env_unpickle_total); the diffEnv reason construction never indexes out of range for any set of differing "
+                  "(env_unpickle_total); the same for decoding from a source = any bytes followed by any failure of the reader "
+                  "(decode_source_total; reader.Read turns every read error into the decoder's error, so a source is the bytes it "
+                  "delivers), and a source that fails before the end of an input yields that input's value or an error, never "
+                  "another value (failed_source_never_changes_value, from decode_app: a decoded value does not depend on later "
+                  "bytes); the diffEnv reason construction never indexes out of range for any set of differing "
                   "keys (diff_reason_total). Correspondence: model and implementation agree on ok/err and on the canonical "
                   "dump of the value for valid encodings, all single-byte truncations/deletions and sampled substitutions of "
                   "them, opcode-weighted random strings and directed cases, with a nil, an object-preserving and the real "
-                  "envUnpickler; all 1023 non-empty key-difference sets through the real diffEnv. Record layer (test, not "
+                  "envUnpickler; the same inputs read from a source that fails after every prefix (sticky / transient / with the last "
+                  "data / bytewise / standard-library error / error wrapping EOF) and from a base64 stream with one damaged "
+                  "character per quantum: no hang (bounded number of reads from a failed source), no panic, no (nil, nil), no "
+                  "value that the delivered bytes do not encode, and the answer the model gives for the delivered bytes; all "
+                  "1023 non-empty key-difference sets through the real diffEnv. Record layer (test, not "
                   "proof): every truncation, sampled substitutions/deletions, field edits and stamp replacements of real record "
                   "files, re-loaded and built in a subprocess: outcome is a reported error, a re-execution, or up to date with a "
                   "record whose stamp is byte-identical to the current stamp (same dependency stamps, rerun clear); never a "
-                  "dead or hung process.",
+                  "dead or hung process; every character of the stamps of a project whose environment holds every operand-bearing "
+                  "opcode damaged (non-alphabet character) and decoded in process as function.load does through a guarded "
+                  "reader, one damaged character per base64 quantum also loaded and built in the subprocess.",
     "level_note": "Trusted: Coq kernel; the transcription (validated by the correspondence run only); Go's recover semantics "
                   "(a runtime.Error satisfies the `failure` interface assertion) is validated on the real code by the "
                   "corrupted-input runs, not proved; big.Int.UnmarshalText is modelled in full (base prefixes, underscores); "
                   "hash collisions abstracted as in C07; the record layer is covered by testing only (json/base64 are not "
                   "modelled); Go stack exhaustion and allocation of declared lengths larger than the input are outside "
-                  "the property and the model (reported as Crash by the model and excluded from the streams).",
+                  "the property and the model (reported as Crash by the model and excluded from the streams); that a reader's "
+                  "failure is unobservable beyond the bytes it delivered (Pickle/Source.v) is a transcription of reader.Read, "
+                  "validated by the failing-source runs; hang = more than 65536 reads from a source that has already failed "
+                  "(in process) or no answer within 30 s / 1 GiB resident (subprocess).",
     "design_ref": "DESIGN.md §6 C15",
 }
 
@@ -280,6 +293,79 @@ def random_stream(rng):
     return bytes(out[:64])
 
 
+
+# ---- the decoder's source: an io.Reader that delivers a prefix and then fails (not only by ending)
+SRC_MODES = ["sticky", "withdata", "bytewise", "transient", "closedpipe", "wrapeof"]
+B64_BAD = [42, 0, 45, 95, 32, 61, 255]     # characters outside the standard alphabet, and '=' in the wrong place
+
+
+def gen_source_cases(inputs, rng, quick):
+    """Failing sources over the input streams: returns (byte strings, [(data index, stream, unp, mode, k)]).
+    valid encodings and directed strings: a sticky failure after every k < length (both unpicklers), the other failure
+    modes after every k (short inputs) or sampled k, and one corrupted base64 character in every quantum (thorough: every
+    character) of their base64 form; a sample of the mutated / random strings: failures at random places."""
+    datas, cases = [], []
+    full = [(s, b) for s, b in inputs if s in ("valid", "directed") and len(b) > 0]
+    rest = [(s, b) for s, b in inputs if s not in ("valid", "directed") and len(b) > 1]
+    rest = rng.sample(rest, min(1500 if quick else 8000, len(rest)))
+    for s, b in full:
+        di, n = len(datas), len(b)
+        datas.append(b)
+        for k in range(n):
+            for unp in (0, 1):
+                cases.append((di, s, unp, "sticky", k))
+        ks = list(range(n)) if (n <= 96 or not quick) else sorted(rng.sample(range(n), 24))
+        for mode in SRC_MODES[1:]:
+            for k in ks:
+                cases.append((di, s, len(cases) % 2, mode, k))
+        nq = (n + 2) // 3
+        cs = [4 * q + (q + di) % 4 for q in range(nq)] if quick else list(range(4 * nq))
+        for j, c in enumerate(cs):
+            cases.append((di, s, len(cases) % 2, "b64:%d" % B64_BAD[(j + di) % len(B64_BAD)], c))
+    for s, b in rest:
+        di, n = len(datas), len(b)
+        datas.append(b)
+        for k in rng.sample(range(n), 2):
+            cases.append((di, s, len(cases) % 2, rng.choice(SRC_MODES), k))
+        cases.append((di, s, len(cases) % 2, "b64:%d" % rng.choice(B64_BAD), rng.randrange(4 * ((n + 2) // 3))))
+    return datas, cases
+
+
+def run_source_harness(ctx, datas, cases):
+    """returns (rc, output, {case index: fields}, oracle lines, index of the case the process died on or None)"""
+    inp = os.path.join(ctx.tmp, "c15src.in")
+    outp = os.path.join(ctx.tmp, "c15src.out")
+    with open(inp, "w") as f:
+        for i, b in enumerate(datas):
+            f.write("data\t%d\t%s\n" % (i, b.hex()))
+        for i, (di, s, unp, mode, k) in enumerate(cases):
+            f.write("src\t%d\t%d\t%s\t%d\t%d\n" % (i, unp, mode, k, di))
+    files = {"zz_verif_c07_test.go": os.path.join(HARNESS, "overlay/pickle/zz_verif_c07_test.go"),
+             "zz_verif_c15_source_test.go": os.path.join(HARNESS, "overlay/pickle/zz_verif_c15_source_test.go")}
+    rc, o = ctx.go_overlay_test("pickle", files, "^TestVerifC15Source$", {"VERIF_SRC_IN": inp, "VERIF_SRC_OUT": outp})
+    res, oracles, begun = {}, [], None
+    if os.path.exists(outp):
+        for line in open(outp, errors="replace"):
+            f = line.rstrip("\n").split("\t")
+            if f[0] == "ORACLE":
+                oracles.append(f)
+            elif f[0] == "begin":
+                begun = int(f[1])
+            elif f[0] == "src" and len(f) >= 7:
+                res[int(f[1])] = f
+    died = begun if (rc != 0 and begun is not None and begun not in res) else None
+    return rc, o, res, oracles, died
+
+
+def src_how(mode, k):
+    if mode.startswith("b64:"):
+        return ("pickle.NewDecoder(base64.NewDecoder(base64.StdEncoding, r), unpickler).Decode() where r holds the standard "
+                "base64 encoding of input_hex with the character at index %d replaced by the character with code %s"
+                % (k, mode[4:]))
+    return ("pickle.NewDecoder(src, unpickler).Decode() where src delivers the first %d bytes of input_hex and then fails "
+            "(mode %s: see srcFault in harness/overlay/pickle/zz_verif_c15_source_test.go)" % (k, mode))
+
+
 def classify(out):
     return out.split(" ", 1)[0]
 
@@ -367,6 +453,27 @@ def run_inner(ctx):
                       {"theorem_or_correspondence": "C15 decode stream (pickle)", "output": o[-3000:]}, found_input=False)
         return
 
+
+    # pass 2b: the same decoder reading from sources that fail (a non-EOF read error after a prefix, a corrupted base64
+    # character in the persisted form): a failure of the source must come out as an error, never as a hang
+    sdatas, scases = gen_source_cases(inputs, rng, quick)
+    t0 = time.time()
+    rc, o, sres, oracles5, sdied = run_source_harness(ctx, sdatas, scases)
+    if rc != 0 and sdied is not None:
+        di, s, unp, mode, k = scases[sdied]
+        ctx.violation("the process died (fatal error) while decoding %d input bytes (%s stream) from a failing source"
+                      % (len(sdatas[di]), s),
+                      {"oracle": "process-died", "input_hex": sdatas[di].hex(), "source": mode, "k": k,
+                       "unpickler": ["nil", "object-preserving test unpickler"][unp], "output_tail": o[-1500:],
+                       "how": src_how(mode, k)})
+        return
+    if rc != 0 or len(sres) != len(scases):
+        ctx.log(o[-3000:])
+        ctx.violation("failing-source harness failed to build or run (exit %d, %d of %d cases answered)" % (rc, len(sres), len(scases)),
+                      {"theorem_or_correspondence": "C15 failing-source harness (pickle)", "output": o[-3000:]}, found_input=False)
+        return
+    ctx.log("failing sources: %d cases over %d byte strings in %.1fs, %d oracle failures" % (len(scases), len(sdatas), time.time() - t0, len(oracles5)))
+
     # pass 3: package dawn (real envUnpickler, diffEnv reasons), then the record layer
     inp = os.path.join(ctx.tmp, "c15env.in")
     outp = os.path.join(ctx.tmp, "c15env.out")
@@ -432,6 +539,23 @@ def run_inner(ctx):
         ctx.violation("pickle Decode %s on %d input bytes (%s stream)" % (f[1], len(b), s),
                       {"oracle": f[1], "input_hex": b.hex(), "unpickler": ["nil", "object-preserving test unpickler"][unp],
                        "how": "pickle.NewDecoder(bytes.NewReader(input), unpickler).Decode()"})
+    shown5, seen5 = [], set()
+    for f in oracles5:                                   # one report per (oracle, failure mode), at most four
+        mode = scases[int(f[2])][3]
+        kk = (f[1], "b64" if mode.startswith("b64:") else mode)
+        if kk not in seen5 and len(shown5) < 4:
+            seen5.add(kk)
+            shown5.append(f)
+    if len(oracles5) > len(shown5):
+        ctx.log("failing sources: %d oracle failures, %d reported" % (len(oracles5), len(shown5)))
+    for f in shown5:
+        di, s, unp, mode, k = scases[int(f[2])]
+        what = {"source-hang": "does not return (more than 65536 further reads from a source that has failed)",
+                "source-panic": "panics", "source-nilnil": "returns (nil, nil)",
+                "source-error-swallowed": "returns a value although the source failed before delivering it"}.get(f[1], f[1])
+        ctx.violation("pickle Decode %s: %d input bytes (%s stream), source %s at %d" % (what, len(sdatas[di]), s, mode, k),
+                      {"oracle": f[1], "input_hex": sdatas[di].hex(), "source": mode, "k": k, "detail": f[3],
+                       "unpickler": ["nil", "object-preserving test unpickler"][unp], "how": src_how(mode, k)})
     for f in oracles3:
         if f[1].startswith("env-decode"):
             ctx.violation("pickle Decode with envUnpickler: %s" % f[1],
@@ -439,10 +563,21 @@ def run_inner(ctx):
         else:
             ctx.violation("diffEnv reason construction: %s for key set %s extra=%s" % (f[1], f[2], f[3]),
                           {"oracle": f[1], "mask": f[2], "extra_key": f[3], "how": "(&function{oldEnv, newEnv}).diffEnv(), see c15reason"})
-    for f in oracles4:
+    shown4, seen4 = [], set()
+    for f in oracles4:                                   # at most two reports per (oracle, record, corruption kind)
+        kk = (f[1], f[2], f[3])
+        if sum(1 for x in shown4 if (x[1], x[2], x[3]) == kk) < 2 and len(shown4) < 6:
+            shown4.append(f)
+    if len(oracles4) > len(shown4):
+        ctx.log("record layer: %d oracle failures, %d reported" % (len(oracles4), len(shown4)))
+    for f in shown4:
         ctx.violation("corrupted record %s (%s %s): %s" % (f[2], f[3], f[4], f[1]),
-                      {"oracle": f[1], "record_file": ".dawn/build/targets/" + f[2], "corruption": f[3], "detail": f[4],
-                       "corrupted_record_hex": f[5], "how": "TestVerifC15Record: restore pristine .dawn, write this record, Load+Run //:default in a subprocess"})
+                      {"oracle": f[1], "record_file": ".dawn/build/targets/" + f[2].replace("rich/", ""),
+                       "project": "c15RichBuildFile" if f[2].startswith("rich/") else "c15BuildFile", "corruption": f[3], "detail": f[4],
+                       "corrupted_record_hex": f[5], "how": ("TestVerifC15Record: decode the stamp (field \"stamp\" of this record) as function.load does: "
+                               "pickle.NewDecoder(base64.NewDecoder(base64.StdEncoding, strings.NewReader(stamp)), "
+                               "pickle.UnpicklerFunc(envUnpickler)).Decode()") if f[3] == "stamp-b64-inprocess" else
+                       "TestVerifC15Record: restore pristine .dawn, write this record, Load+Run //:default in a subprocess"})
     for f in oracles1:
         ctx.log("note: C07 oracle failure on a C15 valid value (reported by C07):", f[:3])
 
@@ -480,6 +615,39 @@ def run_inner(ctx):
             nontrivial.add((b, 2))
         items.append((len(meta), "CDecode 2 %s %s" % (cq_bytes(b), e), len(b) + len(out) + 100))
         meta.append((s, b, "env", out))
+    # failing sources: the answer must be the answer for the bytes delivered before the failure (to the model, a source
+    # is the bytes it delivers: Pickle/Source.v), which the implementation itself gives for that prefix in memory
+    have = {(unp, b) for (s_, b, unp) in pmeta}
+    src_disagree, cand, nfault = [], [], 0
+    for i, (di, s, unp, mode, k) in enumerate(scases):
+        f = sres[i]
+        nerr, out, prefix = int(f[3]), f[4], f[5]
+        mclass = "b64" if mode.startswith("b64:") else mode
+        key = "source:%s:%s:%s" % (s, mclass, classify(out) if nerr else "no-failure-" + classify(out))
+        dist[key] = dist.get(key, 0) + 1
+        if nerr == 0:
+            continue
+        nfault += 1
+        got = sdatas[di][:int(f[2])] if f[6] == "=" else bytes.fromhex(f[6])
+        if out != prefix and out not in ("hang", "panic", "nilnil"):
+            src_disagree.append((i, got, out, prefix))
+        if (out == "err" or out.startswith("ok ")) and (unp, got) not in have and not oversize(got) and len(got) <= 700:
+            cand.append((i, unp, got, out))
+    seen_c, uniq_c = set(), []
+    for c in cand:
+        if (c[1], c[2]) not in seen_c:
+            seen_c.add((c[1], c[2]))
+            uniq_c.append(c)
+    nsrc_budget = 2000 if quick else 8000
+    if len(uniq_c) > nsrc_budget:
+        uniq_c = rng.sample(uniq_c, nsrc_budget)
+    for i, unp, got, out in uniq_c:
+        di, s, _, mode, k = scases[i]
+        if out.startswith("ok "):
+            nontrivial.add((got, unp))
+        items.append((len(meta), "CDecode %d %s %s" % (unp, cq_bytes(got), exp_term(out)), len(got) + len(out) + 100))
+        meta.append(("source:%s:%s@%d" % (s, mode, k), sdatas[di], ["nil", "obj"][unp], out))
+    dist["source:model-evaluated-prefixes"] = len(uniq_c)
     for f in reasons:
         if f[3] in ("eq", "panic", "err"):
             continue
@@ -490,16 +658,22 @@ def run_inner(ctx):
     dist["skipped:declared-length-exceeds-input"] = skipped
     dist.update(rec_dist)
 
-    ctx.coverage["evaluations"] = len(meta) + nrec
+    ctx.coverage["evaluations"] = len(meta) + nrec + nfault
     ctx.coverage["distinct_nontrivial"] = len(nontrivial)
     ctx.coverage["rule"] = ("%d valid encodings (scalars at width boundaries, containers, aliasing, dawn-shaped host objects well- and "
                             "ill-formed, random graphs); every truncation, %s single-byte deletions and opcode-weighted substitutions "
                             "of them; %d opcode-weighted random strings <= 64 bytes; %d directed strings (key equality, mark "
                             "placement, INT text grammar, unknown opcodes); each decoded with nil / object-preserving / real "
-                            "envUnpickler; inputs whose declared 4-byte length exceeds the input size are skipped (%d); all "
-                            "1023 key-difference sets through diffEnv; %d record corruptions in subprocesses. non-trivial = decodes "
+                            "envUnpickler; inputs whose declared 4-byte length exceeds the input size are skipped (%d); %d decodings "
+                            "from failing sources over %d of these byte strings (valid + directed: sticky failure after every "
+                            "prefix with both unpicklers, five other failure modes after every / 24 sampled prefixes, one damaged "
+                            "base64 character per quantum (thorough: every character); sampled mutated / random strings: failures "
+                            "at random places), %d of them with a failure actually met, %d delivered prefixes not already in the "
+                            "streams evaluated by the model; all 1023 key-difference sets through diffEnv; %d record corruptions "
+                            "(in-process stamp decodings with every character damaged + subprocess builds). non-trivial = decodes "
                             "to a value; distinct by (input, unpickler)"
-                            % (len(encs), "sampled" if quick else "all", 3000 if quick else 12000, len(directed()), skipped, nrec))
+                            % (len(encs), "sampled" if quick else "all", 3000 if quick else 12000, len(directed()), skipped,
+                               len(scases), len(sdatas), nfault, len(uniq_c), nrec))
     ctx.coverage["exhaustive"] = False
     ctx.coverage["correspondence"]["distribution"] = dist
     ctx.add_samples([[m[0], m[1].hex()[:80], m[2], m[3][:80]] for m in meta[::max(1, len(meta) // 5)]])
@@ -511,7 +685,20 @@ def run_inner(ctx):
         return
     ctx.coverage["correspondence"]["cases"] = len(items)
     ctx.coverage["correspondence"]["mismatches"] = len(mism)
-    noracle = len(oracles2) + len(oracles3) + len(oracles4)
+    noracle = len(oracles2) + len(oracles3) + len(oracles4) + len(oracles5)
+    if src_disagree and not noracle:
+        ex = []
+        for i, got, out, prefix in src_disagree[:8]:
+            di, s, unp, mode, k = scases[i]
+            ex.append({"stream": s, "input_hex": sdatas[di].hex(), "source": mode, "k": k, "delivered_hex": got.hex(),
+                       "unpickler": ["nil", "obj"][unp], "implementation_failing_source": out[:2000],
+                       "implementation_delivered_bytes_in_memory": prefix[:2000], "how": src_how(mode, k)})
+        ctx.violation("a failing source is not decoded like the bytes it delivered (the model's answer): %d cases, e.g. %s "
+                      "source %s at %d: %s, but %s for the delivered bytes in memory"
+                      % (len(src_disagree), ex[0]["input_hex"][:60], ex[0]["source"], ex[0]["k"], ex[0]["implementation_failing_source"][:40],
+                         ex[0]["implementation_delivered_bytes_in_memory"][:40]),
+                      {"theorem_or_correspondence": "correspondence Pickle/Source.v (decode_source) <-> pickle/decode.go reader.Read",
+                       "disagreeing_cases": ex}, found_input=False)
     ctx.log("inputs=%d coq-items=%d shards=%d mismatches=%d oracle_failures=%d" % (len(inputs), len(items), nshards, len(mism), noracle))
     if mism and not noracle:
         ex = [{"stream": meta[m][0], "input_hex": meta[m][1].hex(), "unpickler": meta[m][2], "implementation": meta[m][3][:2000]}
